@@ -131,7 +131,7 @@ func init() {
 			shardCheck[k] = "check_" + k
 		}
 		e.perShard = 800
-		e.rep.Rule = "truncate: every string of <= L symbols over {a, 2-byte rune, 3-byte rune, stray continuation byte, 4-byte rune, combining mark} x sizes -1..4 x 3 trails (exhaustive) + random strings of 0..64 symbols x size in [-2,70] x trails of 0..8 symbols; htmlEscape/jsEscape over the same strings plus specials; toJSON over recursively generated values (depth<=3) with unsorted keys; non-trivial = result differs from input or value is compound; distinct by input"
+		e.rep.Rule = "truncate: every string of <= L symbols over {a, 2-byte rune, 3-byte rune, stray continuation byte, 4-byte rune, combining mark} x sizes -1..4 x 3 trails (exhaustive) + random strings of 0..64 symbols x size in [-2,70] x trails of 0..8 symbols; htmlEscape/jsEscape over the same strings plus specials; toJSON over recursively generated values (depth<=3) with unsorted keys, every third result held and compared again after later calls, and results kept in template variables across calls; non-trivial = result differs from input or value is compound; distinct by input"
 		syms := []string{"a", "é", "世", "\x80", "😀", "́"}
 		trails := []string{"", "...", "…b"}
 		L := 3
@@ -299,11 +299,23 @@ func init() {
 		if e.Thorough() {
 			nj = 8000
 		}
+		var heldH interface{ }
+		heldCopy, heldDesc := "", ""
 		for i := 0; i < nj; i++ {
 			v := c20genJSON(e.Rng, 3)
 			h, err := encoders.ToJSON(v)
 			e.rep.Evaluations++
 			e.Count("toJSON")
+			// a result obtained earlier must not change when the helper is called again
+			if heldH != nil {
+				if now := fmt.Sprint(heldH); now != heldCopy {
+					e.Violate("c20-json", fmt.Sprintf("the result of an earlier toJSON call changed after a later call: toJSON(%s) was %q, is now %q", heldDesc, heldCopy, now), map[string]interface{}{"value": heldDesc, "was": heldCopy, "now": now})
+					heldH = nil
+				}
+			}
+			if i%3 == 0 && err == nil {
+				heldH, heldCopy, heldDesc = h, string(append([]byte(nil), string(h)...)), fmt.Sprintf("%#v", v)
+			}
 			out := string(h)
 			rp := map[string]interface{}{"value": fmt.Sprintf("%#v", v), "out": out}
 			if err != nil {
@@ -331,6 +343,19 @@ func init() {
 			e.AddCase("c20json", fmt.Sprintf("c20json-%d", e.rep.Evaluations), fmt.Sprintf("(%s, %s)", c20json(v), cqBytes(out)), rp)
 			if i%97 == 5 {
 				e.Sample(rp)
+			}
+		}
+		// the same through a template: results kept in variables while the helper is called again
+		for _, tc := range [][2]string{
+			{`<% let a = toJSON({name: "alice", tags: ["a", "b", "c"]}) %><% let b = toJSON([1, 2]) %><%= a %>|<%= b %>|<%= toJSON("s") %>|<%= a %>`, `{"name":"alice","tags":["a","b","c"]}|[1,2]|"s"|{"name":"alice","tags":["a","b","c"]}`},
+			{`<% let x1 = toJSON([1, 1]) %><% let x2 = toJSON([2, 2]) %><% let x3 = toJSON({k: [3]}) %><%= for (x) in [x1, x2, x3, x1] { %><%= x %>;<% } %>`, `[1,1];[2,2];{"k":[3]};[1,1];`},
+			{`<% let a = jsEscape("<a>") %><% let b = jsEscape("'q'") %><% let c = htmlEscape("<h>") %><% let d = truncate("abcdefgh", {size: 5}) %><% let e = truncate("zyxwvuts", {size: 4}) %><%= a %>|<%= b %>|<%= c %>|<%= d %>|<%= e %>`, `\u003Ca\u003E|\&#39;q\&#39;|&amp;lt;h&amp;gt;|ab...|z...`},
+		} {
+			o := runRender(RCase{Tmpl: tc[0]})
+			e.rep.Evaluations++
+			e.Count("held-results-template")
+			if o.Class != "OK" || o.Out != tc[1] {
+				e.Violate("c20-json", fmt.Sprintf("%s rendered %q (%s %s), want %q", tc[0], o.Out, o.Class, o.Msg, tc[1]), map[string]interface{}{"tmpl": tc[0], "observed": o})
 			}
 		}
 		_ = sort.Strings
